@@ -50,7 +50,7 @@ class Worker:
 
     # -- bookkeeping used by property modules
     def count(self, key, n=1):
-        self.counters[key] = self.counters.get(key, 0) + n
+        self.counters[key] = self.counters.get(key, 0) + int(n)
 
     def case(self, sig, sample=None, nontrivial=True):
         """Register one executed case.  `sig` is the shape signature (anything
@@ -191,8 +191,9 @@ def worker_main(argv):
         notes=w.notes,
         wall=time.time() - w.t0,
     )
-    with open(out, "w") as f:
-        json.dump(res, f)
+    with open(out + ".tmp", "w") as f:
+        json.dump(_jsonable(res), f)
+    os.replace(out + ".tmp", out)
     return 0
 
 
@@ -340,8 +341,8 @@ def _run(pid, tier, a, mod, scratch, t0):
             json.dump({"property": pid, "tier": tier, "seed": a.seed, "case_seed": v["case_seed"],
                        "mechanism": mech, "count": len(vs), "msg": v["msg"], "case": v["case"]}, f, indent=1)
         lines.append(f"VIOLATION property={pid} replay={path}")
-        print(f"  mechanism={mech} occurrences={len(vs)}")
-        print("  " + v["msg"].replace("\n", "\n  ")[:1500])
+        first = v["msg"].strip().splitlines()
+        print(f"  mechanism={mech} occurrences={len(vs)} :: " + (first[-1] if first and first[0].startswith("Traceback") else (first[0] if first else ""))[:300])
     for mech, vs in kf_hits.items():
         print(f"KNOWN-FINDING: property={pid} {known_mech[mech]['what']} [mechanism={mech} hits={len(vs)}]")
     # ---- evidence
@@ -379,8 +380,10 @@ def _run(pid, tier, a, mod, scratch, t0):
     print(f"[{pid}] tier={tier} seed={a.seed} cases={evaluations} distinct={len(sigs)} wall={wall:.1f}s")
     print(f"[{pid}] observed: " + ", ".join(f"{k}={v}" for k, v in summ.items()))
     if lines:
-        for l in lines:
+        for l in lines[:15]:
             print(l)
+        if len(lines) > 15:
+            print(f"... and {len(lines) - 15} more violation mechanisms (replay files written)")
         return EXIT_VIOLATION
     if inconclusive:
         for r in inconclusive[:6]:
